@@ -14,6 +14,8 @@ use std::time::Duration;
 
 pub struct C20;
 
+/// id of the local (in-process) client some cases add to the server next to the remote ones
+const LOCAL_ID: u64 = 950;
 const BIG: usize = 5 * 1024 * 1024;
 /// what the receiving side of the extra channel 3 believes the channel's budget to be
 const TIGHT: usize = 3000;
@@ -95,6 +97,8 @@ struct Net {
     server_sock_addr: SocketAddr,
     st: NetcodeServerTransport,
     server: RenetServer,
+    /// a host-client: connected through RenetServer::new_local_client, unknown to the netcode layer
+    local: Option<RenetClient>,
     clients: Vec<ClientEnd>,
     tick: u64,
     now: Duration,
@@ -123,6 +127,7 @@ enum Op {
     Silence { client: usize, ticks: u32 },
     Spawn { id: u64 },
     Poison { client: usize, to_client: bool, unknown_channel: bool },
+    SetLimit { to: usize },
 }
 
 impl Net {
@@ -385,7 +390,7 @@ impl Net {
             self.ev_count += 1;
             match e {
                 ServerEvent::ClientConnected { client_id } => {
-                    if !self.clients.iter().any(|c| c.id == client_id) {
+                    if !self.clients.iter().any(|c| c.id == client_id) && !(client_id == LOCAL_ID && self.local.is_some()) {
                         return Err(Fail::new("event_unknown_id", format!("ClientConnected for id {client_id} which no client holds a token for")));
                     }
                     if self.ev_open.insert(client_id, true) == Some(true) {
@@ -468,6 +473,15 @@ impl Net {
         self.relay(ctx);
         // server: receive, update clients, push renet disconnects down
         self.server.update(dt);
+        if let Some(l) = self.local.as_mut() {
+            l.update(dt);
+            if self.server.process_local_client(LOCAL_ID, l).is_err() {
+                return Err(Fail::new("local_client_lost", "process_local_client does not find the local client's connection any more"));
+            }
+            for ch in 0..3u8 {
+                while l.receive_message(ch).is_some() {}
+            }
+        }
         if let Err(e) = self.st.update(dt, &mut self.server) {
             if spurious_io(&e) {
                 return Err(Fail::new("transport_reports_wouldblock", format!("NetcodeServerTransport::update returned {e} although its socket only had nothing more to read")));
@@ -476,7 +490,8 @@ impl Net {
         }
         self.events(ctx)?;
         // lock-step right after the server transport's update
-        let mut renet_ids = self.server.clients_id();
+        // the local client is a connection of the message layer only, by construction
+        let mut renet_ids: Vec<u64> = self.server.clients_id().into_iter().filter(|i| *i != LOCAL_ID).collect();
         renet_ids.sort_unstable();
         if !self.server.disconnections_id().is_empty() {
             return Err(Fail::new("lockstep_disconnected_left", format!("after the transport update the message layer still holds disconnected connections {:?}", self.server.disconnections_id())));
@@ -489,7 +504,7 @@ impl Net {
                 format!("after the transport update the message layer holds {renet_ids:?}, the netcode layer holds {netcode_ids:?} ({} connected)", self.st.connected_clients()),
             ));
         }
-        let open: Vec<u64> = self.ev_open.iter().filter(|(_, o)| **o).map(|(i, _)| *i).collect();
+        let open: Vec<u64> = self.ev_open.iter().filter(|(i, o)| **o && **i != LOCAL_ID).map(|(i, _)| *i).collect();
         if open != renet_ids {
             return Err(Fail::new("lockstep_events_differ", format!("events say {open:?} are connected, the message layer holds {renet_ids:?}")));
         }
@@ -561,7 +576,7 @@ impl Property for C20 {
         "fault_enumeration"
     }
     fn rule(&self) -> String {
-        "A case runs the real NetcodeServerTransport and 1-3 NetcodeClientTransports (secure authentication with generated tokens, or in some cases the Unsecure development mode of both transports) (plus reconnecting client objects with new tokens; some tokens list a silent address before the real one, so the client fails over first) on loopback UDP sockets through an in-path relay that the harness thread pumps after every transport call. Relay fault decision per (client, direction, datagram): forward / drop / duplicate / delay 1-6 ticks (hence reorder) / flip one bit / forward and replay an old datagram of that link; whole-silence periods; application traffic on all three default channels in both directions and broadcasts; disconnects decided by RenetClient::disconnect, NetcodeClientTransport::disconnect, RenetServer::disconnect, NetcodeServerTransport::disconnect_all, by silence (timeouts) and by the receiving message layer itself while it processes a datagram (a peer sends more than the receiver's budget of the extra channel 3, or on a channel only the sender knows); reconnects. Oracles: right after every NetcodeServerTransport::update the ids the message layer reports connected equal the ids the netcode layer holds (client_addr, connected_clients), no disconnected connection is left, and equal the ids open in the ServerEvent stream, which alternates per id and only names ids that hold a token; every message obtained over the full stack satisfies the ordered-prefix / unordered-at-most-once / unreliable-membership oracles of its session; after the faults stop and timeout + 3 s of fault-free ticks every session for which a disconnect was decided anywhere has ended on both sides, and every session that stayed healthy has obtained all reliable messages; in 'gentle' cases (no disconnect operation, no silence, at least one genuine datagram per direction forwarded in every third of the timeout) nobody is ever disconnected whatever else the relay does, and at the end every client is connected in both layers on both sides; a transport update never reports 'nothing more to read' (WouldBlock) as an error. Non-trivial: at least one corrupted or replayed datagram after a handshake completed and at least one relay fault. Distinct = hash of the decoded operation trace.".into()
+        "A case runs the real NetcodeServerTransport and 1-3 NetcodeClientTransports (secure authentication with generated tokens, or in some cases the Unsecure development mode of both transports) (plus reconnecting client objects with new tokens; some tokens list a silent address before the real one, so the client fails over first) on loopback UDP sockets through an in-path relay that the harness thread pumps after every transport call. Relay fault decision per (client, direction, datagram): forward / drop / duplicate / delay 1-6 ticks (hence reorder) / flip one bit / forward and replay an old datagram of that link; whole-silence periods; application traffic on all three default channels in both directions and broadcasts; disconnects decided by RenetClient::disconnect, NetcodeClientTransport::disconnect, RenetServer::disconnect, NetcodeServerTransport::disconnect_all, by silence (timeouts) and by the receiving message layer itself while it processes a datagram (a peer sends more than the receiver's budget of the extra channel 3, or on a channel only the sender knows); reconnects; the client limit raised and lowered at run time; in some cases a local (in-process) client connected to the same RenetServer. Oracles: right after every NetcodeServerTransport::update the ids the message layer reports connected equal the ids the netcode layer holds (client_addr, connected_clients), no disconnected connection is left, and equal the ids open in the ServerEvent stream, which alternates per id and only names ids that hold a token; every message obtained over the full stack satisfies the ordered-prefix / unordered-at-most-once / unreliable-membership oracles of its session; after the faults stop and timeout + 3 s of fault-free ticks every session for which a disconnect was decided anywhere has ended on both sides, and every session that stayed healthy has obtained all reliable messages; in 'gentle' cases (no disconnect operation, no silence, at least one genuine datagram per direction forwarded in every third of the timeout) nobody is ever disconnected whatever else the relay does, and at the end every client is connected in both layers on both sides; a transport update never reports 'nothing more to read' (WouldBlock) as an error. Non-trivial: at least one corrupted or replayed datagram after a handshake completed and at least one relay fault. Distinct = hash of the decoded operation trace.".into()
     }
     fn assumptions(&self) -> Vec<String> {
         vec![
@@ -574,7 +589,7 @@ impl Property for C20 {
         PbtCfg { cases: tier.pick(15_000, 300_000), max_len: tier.pick(1200, 5000), shrink_ms: 120_000 }
     }
     fn required_labels(&self) -> Vec<&'static str> {
-        vec!["relay_corrupt", "relay_replay", "relay_drop", "relay_dup", "relay_delay", "client_disconnect", "transport_disconnect", "server_disconnect", "disconnect_all", "timeout_by_silence", "gentle_case", "reconnect", "event_connected", "event_disconnected", "e2e_messages", "poison_to_client", "poison_to_server", "server_msg_layer_disconnect", "client_msg_layer_disconnect", "silent_first_address", "unsecure_authentication"]
+        vec!["relay_corrupt", "relay_replay", "relay_drop", "relay_dup", "relay_delay", "client_disconnect", "transport_disconnect", "server_disconnect", "disconnect_all", "timeout_by_silence", "gentle_case", "reconnect", "event_connected", "event_disconnected", "e2e_messages", "poison_to_client", "poison_to_server", "server_msg_layer_disconnect", "client_msg_layer_disconnect", "silent_first_address", "unsecure_authentication", "local_client", "limit_changed"]
     }
     fn run_choices(&self, ctx: &mut Ctx) -> Outcome {
         renetcode::verif::set_rng_seed(Some(ctx.src.u16() as u64 | 1));
@@ -609,6 +624,7 @@ impl Property for C20 {
             server_sock_addr,
             st,
             server: RenetServer::new(stack_config(true)),
+            local: None,
             clients: vec![],
             tick: 0,
             now,
@@ -622,6 +638,11 @@ impl Property for C20 {
             corrupted: 0,
             replayed: 0,
         };
+        if ctx.src.chance(40) {
+            // a host-client next to the remote ones (the transport finds no netcode session for it, which must not disturb the others)
+            net.local = Some(net.server.new_local_client(LOCAL_ID));
+            ctx.label("local_client");
+        }
         let n0 = 1 + ctx.src.below(3);
         ctx.op(&(n0, timeout_s, tick_ms, gentle, unsecure));
         for i in 0..n0 {
@@ -637,7 +658,7 @@ impl Property for C20 {
         let mut serial = 0u32;
         while !ctx.src.exhausted() && ops < max_ops {
             ops += 1;
-            let w: [u32; 9] = if gentle { [60, 30, 4, 0, 0, 0, 0, 0, 0] } else { [60, 30, 4, 3, 3, 1, 3, 3, 3] };
+            let w: [u32; 10] = if gentle { [60, 30, 4, 0, 0, 0, 0, 0, 0, 2] } else { [60, 30, 4, 3, 3, 1, 3, 3, 3, 2] };
             let op = match ctx.src.weighted(&w) {
                 0 => {
                     net.do_tick(ctx)?;
@@ -730,10 +751,11 @@ impl Property for C20 {
                     net.events(ctx)?;
                     // 'disconnects all connected clients ... sends the disconnect packet instantly': nothing may be left in either layer,
                     // whatever the message layer had already decided for some of them
-                    if net.st.connected_clients() != 0 || net.server.has_connections() {
+                    let remote_left: Vec<u64> = net.server.clients_id().into_iter().chain(net.server.disconnections_id()).filter(|i| *i != LOCAL_ID).collect();
+                    if net.st.connected_clients() != 0 || !remote_left.is_empty() {
                         return Err(Fail::new(
                             "disconnect_all_left_sessions",
-                            format!("after disconnect_all the netcode layer still holds {} session(s) and the message layer holds connections: {}", net.st.connected_clients(), net.server.has_connections()),
+                            format!("after disconnect_all the netcode layer still holds {} session(s) and the message layer holds remote connections {remote_left:?}", net.st.connected_clients()),
                         ));
                     }
                     Op::DisconnectAll
@@ -746,6 +768,18 @@ impl Property for C20 {
                         ctx.label("timeout_by_silence");
                     }
                     Op::Silence { client: ci, ticks }
+                }
+                9 => {
+                    // the client limit changed at run time: nobody is disconnected by that (in gentle cases it stays large enough for
+                    // everybody, so that every handshake can still complete)
+                    let to = if gentle { 3 + ctx.src.below(4) } else { 1 + ctx.src.below(6) };
+                    let before = net.st.connected_clients();
+                    net.st.set_max_clients(to);
+                    if net.st.connected_clients() != before {
+                        return Err(Fail::new("limit_change_dropped_sessions", format!("set_max_clients({to}) changed the number of netcode sessions from {before} to {}", net.st.connected_clients())));
+                    }
+                    ctx.label("limit_changed");
+                    Op::SetLimit { to }
                 }
                 8 => {
                     // message-layer misbehaviour of a peer: more data than the receiver's budget for channel 3, or a channel the receiver does
